@@ -564,3 +564,62 @@ def r03b_defeat_remaining(ctx):
                          else 'statements between the loop and the sweep change the counts'))
             ctx.check(ok, R, loop, f, what, how, how)
     ctx.floor(R, 'defeat-remaining sweeps', n, 8)
+
+
+# ---------------------------------------------------------------------------
+# R03c  a single exclusion needs more hopefuls than seats left
+# ---------------------------------------------------------------------------
+
+def r03c_single_defeat_guard(ctx):
+    """On every path from the start of count() to a single (non-batch, non-sweep) defeat inside the main
+    loop, the fact G = `len(C.hopeful()) > E.seatsLeftToFill()` holds at the defeat: established by a test
+    edge and preserved by elect / unelect / unpend (which move hopeful and seats left together or not at
+    all); a defeat drops it.  Then the exclusion leaves hopeful >= seats left."""
+    R = 'R03c'
+    from .loops import _atoms, _assign_transfer
+    from ..pathfacts import search, describe
+    from .common import node_effects
+    n = 0
+    for ri in rules(ctx):
+        f, cfg = ri.count, ri.cfg
+        loop = ri.main_loop()
+        inside = cfg.nodes_in(loop)
+        atoms = _atoms(ctx, f)
+        base = _assign_transfer(ctx, f, atoms, unelect_drops=())
+
+        def on_node(node, facts):
+            eff = node_effects(ctx, f, node)
+            new = facts
+            if 'defeat' in eff:
+                new = {k: v for k, v in new.items() if k not in ('G', 'G0', 'H', 'S')}
+            elif eff & {'elect', 'unelect'}:
+                new = {k: v for k, v in new.items() if k not in ('G0', 'H', 'S', 'P')}
+            elif 'unpend' in eff:
+                new = {k: v for k, v in new.items() if k != 'P'}
+            # round counter: 0 at entry, newRound: 0 -> 1 -> many
+            if any(ctx.canon(c.func, f) == 'E.newRound' for c in calls_at(node)):
+                r = new.get('RND', 'many')
+                new = dict(new)
+                new['RND'] = 1 if r == 0 else 'many'
+                new.pop('R1', None)
+                new['R1'] = (new['RND'] == 1)
+            return base(node, new)
+        for call in attr_calls(f, ('defeat',)):
+            recv = call.func.value
+            dn = cfg_node_of(ctx, f, call)
+            if dn not in inside:
+                continue
+            lp, _ = deriv(ctx).for_binding(recv) if isinstance(recv, ast.Name) else (None, None)
+            if lp is not None:
+                continue            # batches: R03; sweeps: R03b
+            n += 1
+
+            def accept(node, facts, dn=dn):
+                return node is dn and facts.get('G') is not True
+            p = search(cfg, cfg.entry, {'RND': 0, 'R1': False}, None, set(), atoms, on_node=on_node, accept=accept)
+            ctx.check(p is None, R, call, f,
+                      'a candidate is excluded singly only while more candidates are hopeful than seats remain to fill',
+                      'path-sensitive search from the start of count(): every path to this defeat carries the fact '
+                      'len(C.hopeful()) > E.seatsLeftToFill() (established by a guard, preserved by elect/unelect/unpend)',
+                      'the exclusion can be reached when the hopefuls no longer outnumber the seats left: %s' % (describe(p) if p else ''))
+    ctx.floor(R, 'single exclusion sites', n, 9)
